@@ -75,3 +75,14 @@ Definition bound_z (v : option Z) : res Z := match v with Some x => OK x | None 
 (* range(a, b) *)
 Fixpoint zrange_fuel (n : nat) (a : Z) : list Z := match n with O => [] | S n' => a :: zrange_fuel n' (a + 1) end.
 Definition zrange (a b : Z) : list Z := zrange_fuel (Z.to_nat (b - a)) a.
+
+(* range(a, b, s) for a positive step *)
+Fixpoint zrange_step_fuel (n : nat) (a s : Z) : list Z := match n with O => [] | S n' => a :: zrange_step_fuel n' (a + s) s end.
+Definition zrange_step (a b s : Z) : list Z := if s <=? 0 then [] else zrange_step_fuel (Z.to_nat ((b - a + s - 1) / s)) a s.
+
+(* bytes(iterable of ints): ValueError unless every value is in range(256) *)
+Definition bytes_of (l : list Z) : res (list Z) :=
+  if forallb (fun x => (0 <=? x) && (x <=? 255)) l then OK l else Err ValueError.
+
+(* int.from_bytes([x], <any byte order>, signed=...) of one byte *)
+Definition from_one_byte (signed : bool) (x : Z) : Z := if signed && (128 <=? x) then x - 256 else x.
